@@ -438,8 +438,17 @@ impl<'a> ExprAST<'a> {
     }
 }
 
+// limit on both the nesting of the parser's recursion and the height of the tree
+// it builds (exec, expr, describe, clone and drop recurse over the tree), so that
+// no input can exhaust the stack
+const MAX_DEPTH: usize = 128;
+
 pub struct Parser<'a> {
     tokenizer: Tokenizer<'a>,
+    // nested expressions being parsed
+    depth: usize,
+    // height of the tree returned by the parse step that finished last
+    height: usize,
 }
 
 impl<'a> Parser<'a> {
@@ -452,7 +461,26 @@ impl<'a> Parser<'a> {
         tokenizer.next()?;
         Ok(Self {
             tokenizer: tokenizer,
+            depth: 0,
+            height: 0,
         })
+    }
+
+    fn enter(&mut self) -> Result<()> {
+        self.depth += 1;
+        if self.depth > MAX_DEPTH {
+            return Err(Error::NestingTooDeep);
+        }
+        Ok(())
+    }
+
+    // a new node on top of children of the given maximal height
+    fn node(&mut self, children: usize) -> Result<()> {
+        self.height = children + 1;
+        if self.height > MAX_DEPTH {
+            return Err(Error::NestingTooDeep);
+        }
+        Ok(())
     }
 
     fn is_eof(&self) -> bool {
@@ -469,6 +497,7 @@ impl<'a> Parser<'a> {
 
     fn parse_token(&mut self) -> Result<ExprAST<'a>> {
         let token = self.tokenizer.cur_token;
+        self.height = 1;
         match token {
             Token::Number(val, _) => {
                 self.next()?;
@@ -496,11 +525,13 @@ impl<'a> Parser<'a> {
 
     pub fn parse_stmt(&mut self) -> Result<ExprAST<'a>> {
         let mut ans = Vec::new();
+        let mut height = 0;
         loop {
             if self.is_eof() {
                 break;
             }
             ans.push(self.parse_expression()?);
+            height = height.max(self.height);
             if self.cur_tok().is_semicolon() {
                 self.next()?;
             }
@@ -508,12 +539,16 @@ impl<'a> Parser<'a> {
         if ans.len() == 1 {
             return Ok(ans[0].clone());
         }
+        self.node(height)?;
         Ok(ExprAST::Stmt(ans))
     }
 
     pub fn parse_expression(&mut self) -> Result<ExprAST<'a>> {
+        self.enter()?;
         let lhs = self.parse_primary()?;
-        self.parse_op(0, lhs)
+        let ans = self.parse_op(0, lhs)?;
+        self.depth -= 1;
+        Ok(ans)
     }
 
     fn parse_primary(&mut self) -> Result<ExprAST<'a>> {
@@ -521,12 +556,14 @@ impl<'a> Parser<'a> {
         if self.tokenizer.cur_token.is_postfix_op_token() {
             let op = self.tokenizer.cur_token.string();
             self.next()?;
+            self.node(self.height)?;
             return Ok(ExprAST::Postfix(Box::new(lhs), op.to_string()));
         }
         Ok(lhs)
     }
 
     fn parse_op(&mut self, exec_prec: i64, mut lhs: ExprAST<'a>) -> Result<ExprAST<'a>> {
+        let mut lhs_height = self.height;
         loop {
             if !self.tokenizer.cur_token.is_op_token() {
                 return Ok(lhs);
@@ -539,8 +576,10 @@ impl<'a> Parser<'a> {
                 }
                 self.next()?;
                 let a = self.parse_expression()?;
+                let a_height = self.height;
                 self.expect(":")?;
                 let b = self.parse_expression()?;
+                self.node(lhs_height.max(a_height).max(self.height))?;
                 return Ok(ExprAST::Ternary(Box::new(lhs), Box::new(a), Box::new(b)));
             }
             // `x not OP y` is not(x OP y) with OP's own binding powers: look through
@@ -566,12 +605,17 @@ impl<'a> Parser<'a> {
             let next_is_not = self.tokenizer.cur_token.is_not_token();
             let (next_is_binop, (cur_l_bp, _)) = self.peek_infix(next_is_not)?;
             if next_is_binop && r_bp < cur_l_bp {
+                self.enter()?;
                 rhs = self.parse_op(r_bp, rhs)?;
+                self.depth -= 1;
             }
+            self.node(lhs_height.max(self.height))?;
             lhs = ExprAST::Binary(op, Box::new(lhs), Box::new(rhs));
             if is_not {
+                self.node(self.height)?;
                 lhs = ExprAST::Unary("not", Box::new(lhs));
             }
+            lhs_height = self.height;
         }
     }
 
@@ -616,35 +660,42 @@ impl<'a> Parser<'a> {
     fn parse_open_bracket(&mut self) -> Result<ExprAST<'a>> {
         self.next()?;
         let mut exprs = Vec::new();
+        let mut height = 0;
         loop {
             if self.is_eof() || self.cur_tok().is_close_bracket() {
                 break;
             }
             exprs.push(self.parse_expression()?);
+            height = height.max(self.height);
             if !self.cur_tok().is_close_bracket() {
                 self.expect(",")?;
             }
         }
         self.expect("]")?;
+        self.node(height)?;
         Ok(ExprAST::List(exprs))
     }
 
     fn parse_open_brace(&mut self) -> Result<ExprAST<'a>> {
         self.next()?;
         let mut m = Vec::new();
+        let mut height = 0;
         loop {
             if self.is_eof() || self.cur_tok().is_close_brace() {
                 break;
             }
             let k = self.parse_expression()?;
+            height = height.max(self.height);
             self.expect(":")?;
             let v = self.parse_expression()?;
+            height = height.max(self.height);
             m.push((k, v));
             if !self.cur_tok().is_close_brace() {
                 self.expect(",")?;
             }
         }
         self.expect("}")?;
+        self.node(height)?;
         Ok(ExprAST::Map(m))
     }
 
@@ -653,7 +704,11 @@ impl<'a> Parser<'a> {
             return Err(Error::PrefixOpNotRegistered(op.to_string()));
         }
         self.next()?;
-        Ok(ExprAST::Unary(op, Box::new(self.parse_primary()?)))
+        self.enter()?;
+        let rhs = self.parse_primary()?;
+        self.depth -= 1;
+        self.node(self.height)?;
+        Ok(ExprAST::Unary(op, Box::new(rhs)))
     }
 
     fn parse_function(&mut self, name: &'a str) -> Result<ExprAST<'a>> {
@@ -665,8 +720,10 @@ impl<'a> Parser<'a> {
             return Ok(ExprAST::Function(name, ans));
         }
         let has_right_paren;
+        let mut height = 0;
         loop {
             ans.push(self.parse_expression()?);
+            height = height.max(self.height);
             if self.cur_tok().is_close_paren() {
                 has_right_paren = true;
                 self.next()?;
@@ -677,6 +734,7 @@ impl<'a> Parser<'a> {
         if !has_right_paren {
             return Err(Error::NoCloseDelim);
         }
+        self.node(height)?;
         Ok(ExprAST::Function(name, ans))
     }
 }
